@@ -400,7 +400,21 @@ pub fn run_phase(ph: &Phase, cfg: &Config) -> PhaseReport {
     // call before them: a result that depends on it (thread-local scratch, memo, cache) shows up as a violation of j.
     let mut order_reps = 0usize;
     let mut order_pairs = 0u64;
-    if violation.is_none() && !capped && cfg.order_reps > 0 {
+    // a main-pass violation that does not reproduce when the same execution is run alone in a fresh thread depends on the
+    // calls made before it (hidden state): label it, and let the call-order pass below re-derive it as a deterministic pair
+    let mut history_dependent = false;
+    if let Some((_, v)) = &violation {
+        let alone = std::thread::scope(|s| s.spawn(|| run_single_q(ph, v.unit, &v.choices, cfg.thorough, cfg.seed).0.is_ok()).join().unwrap_or(false));
+        history_dependent = alone;
+    }
+    if history_dependent {
+        if let Some((_, v)) = violation.as_mut() {
+            v.fail.what = format!("{} [history-dependent: the same execution alone in a fresh thread satisfies the property]", v.fail.what);
+            stats.reps.push((v.unit, v.choices.clone()));
+        }
+    }
+    if (violation.is_none() || history_dependent) && !capped && cfg.order_reps > 0 {
+        let must_keep = violation.as_ref().map(|(_, v)| (v.unit, v.choices.clone()));
         let mut reps = std::mem::take(&mut stats.reps);
         reps.sort();
         reps.dedup();
@@ -409,7 +423,12 @@ pub fn run_phase(ph: &Phase, cfg: &Config) -> PhaseReport {
         let budget = if cfg.thorough { 480.0 } else { 64.0 };
         let r_budget = ((budget / (2.0 * per_exec)).sqrt() as usize).max(8);
         let r = cfg.order_reps.min(reps.len()).min(r_budget);
-        let picked: Vec<(usize, Vec<u32>)> = if reps.len() <= r { reps } else { (0..r).map(|k| reps[k * reps.len() / r].clone()).collect() };
+        let mut picked: Vec<(usize, Vec<u32>)> = if reps.len() <= r { reps } else { (0..r).map(|k| reps[k * reps.len() / r].clone()).collect() };
+        if let Some(k) = must_keep {
+            if !picked.contains(&k) {
+                picked.push(k);
+            }
+        }
         order_reps = picked.len();
         let nexti = AtomicUsize::new(0);
         let found: Mutex<Option<(usize, Violation)>> = Mutex::new(None);
